@@ -309,3 +309,57 @@ Section Extract.
                 let r := loader_calls (fst c) t in (fst r, snd c :: snd r)
     end.
 End Extract.
+
+(* ================================================================== *)
+(* write_wfs_chunk with preprocess_steps                               *)
+(* ================================================================== *)
+(* The snippet of chunk i (c_nc P rows, chunk_len i columns) goes through the requested steps, always in
+   the order butterworth -> phase_shift -> bad_channel_interpolation -> car -> kfilt, before the windows are
+   gathered from it.  What each library function computes is not C13's matter (C05 / C07 / C15): the steps
+   are Section variables taking (rows, columns, snippet).  Step codes: 1 butterworth, 2 phase_shift,
+   3 bad_channel_interpolation, 4 car, 5 kfilt. *)
+Section Preprocess.
+  Variable V : Type.
+  Variable src : Z -> Z -> V.
+  Definition snippet := Z -> Z -> V.                       (* channel, local column *)
+  Variables f_butter f_shift f_interp f_car f_kfilt : Z -> Z -> snippet -> snippet.
+  Variable choose : Z -> list Z -> Z -> list Z.
+  Variable P : cfg.
+
+  Definition has_step (k : Z) (steps : list Z) : bool := existsb (Z.eqb k) steps.
+  (* assert set(preprocess_steps).issubset({...}); "car" and "kfilt" together: ValueError *)
+  Definition steps_ok (steps : list Z) : bool :=
+    forallb (fun k => (1 <=? k) && (k <=? 5)) steps && negb (has_step 4 steps && has_step 5 steps).
+  Definition preprocess (steps : list Z) (nrows len : Z) (s : snippet) : snippet :=
+    let s1 := if has_step 1 steps then f_butter nrows len s else s in
+    let s2 := if has_step 2 steps then f_shift nrows len s1 else s1 in
+    let s3 := if has_step 3 steps then f_interp nrows len s2 else s2 in
+    let s4 := if has_step 4 steps then f_car nrows len s3 else s3 in
+    if has_step 5 steps then f_kfilt nrows len s4 else s4.
+
+  (* my_sr[s0 - offset : s1 + spike_length_samples - trough_offset, :-nsync].T *)
+  Definition chunk_a (i : Z) : Z := py_start (c_ns P) (s0 P i - chunk_offset P i).
+  Definition chunk_len (i : Z) : Z :=
+    Z.max 0 (py_stop (c_ns P) (s1 P i + c_L P - c_to P) - chunk_a i).
+  Definition raw_snippet (i : Z) : snippet := fun ch q => src ch (chunk_a i + q).
+  (* the processed snippet of chunk i, addressed by absolute sample like the recording *)
+  Definition pp_source (steps : list Z) (i : Z) : Z -> Z -> V :=
+    fun ch c => preprocess steps (c_nc P) (chunk_len i) (raw_snippet i) ch (c - chunk_a i).
+  Definition chunk_writes_pp (steps : list Z) (ci : list (list Z)) (tb : list row) (i : Z) :=
+    chunk_writes V (pp_source steps i) P ci tb i.
+  Definition all_writes_pp (steps : list Z) (ci : list (list Z)) (tb : list row) : option (list (Z * wf V)) :=
+    option_map (@concat _) (sequence (map (chunk_writes_pp steps ci tb) (zrange (Z.to_nat (nchunks P))))).
+  Definition traces_pp (steps : list Z) : option (list (option (wf V))) :=
+    if steps_ok steps then
+      let tb := table choose P in
+      option_map (fun ws => apply_writes V ws (mem0 V tb)) (all_writes_pp steps (cidx P) tb)
+    else None.
+  (* what the harness needs to cut the expected waveforms out of processed snippets:
+     (waveform_index, chunk, snippet start, snippet length, local column of the window start, peak channel) *)
+  Definition gather_plan : list (list Z) :=
+    let tb := table choose P in
+    flat_map (fun i => map (fun r => [r_wfi r; i; chunk_a i; chunk_len i;
+                                      r_sample r + chunk_offset P i - i * c_size P - c_to P; r_chan r])
+                           (slice_rows P tb i))
+             (zrange (Z.to_nat (nchunks P))).
+End Preprocess.
